@@ -12,22 +12,22 @@ import (
 
 func init() {
 	register(&Property{
-		ID:  "C10",
-		Run: runC10,
-		Explanation: "Decides the structural clauses of failure classification and bounded recovery on every path of the two lifecycle services: (R1) the cleanup goroutine calls recoverPipeline only on the not-fatal (v2: and not-shutting-down, not-intentionally-stopped) edge, writes Degraded only on the fatal edge or after a failed recovery, and writes only a stopped status when the tomb is still alive / after a deliberate stop; (R2) recoverPipeline / StartWithBackoff have closed caller sets; (R3) StartWithBackoff waits and restarts only below the retry bound (exceeding it returns a fatal error), restarts only when the run it belongs to is still the published one, and the attempt counter is touched only by its +1/−1 (no reset); (R4) force stop and exhausted retries are fatal-tagged in both engines and a processor error whose nack fails is fatal in v1; (R5) v2 marks a deliberate stop before it stops any worker and StopAll marks the shutdown before stopping; (R7) a v2 worker kills the tomb with its own error before closing itself, so the root cause decides the classification; (R8) a v2 run parked in the recovery back-off is not restarted once a stop marked it (graceful or force) and the cleanup goroutine finalizes that as UserStopped; (R4 also) a failed v1 DLQ write and a v2 processor error whose nack fails are returned as fatal errors.",
+		ID:          "C10",
+		Run:         runC10,
+		Explanation: "Decides the structural clauses of failure classification and bounded recovery on every path of the two lifecycle services: (R1) the cleanup goroutine calls recoverPipeline only on the not-fatal (v2: and not-shutting-down, not-intentionally-stopped) edge, writes Degraded only on the fatal edge or after a failed recovery, and writes only a stopped status when the tomb is still alive / after a deliberate stop; (R2) recoverPipeline / StartWithBackoff have closed caller sets; (R3) StartWithBackoff waits and restarts only below the retry bound (exceeding it returns a fatal error), restarts only when the run it belongs to is still the published one, and the attempt counter is touched only by its +1/−1 (no reset); (R4) force stop and exhausted retries are fatal-tagged in both engines and a processor error whose nack fails is fatal in v1; (R5) v2 marks a deliberate stop before it stops any worker and StopAll marks the shutdown before stopping; (R7) a v2 worker kills the tomb with its own error before closing itself, so the root cause decides the classification; (R8) in both engines a run parked in the recovery back-off is not restarted once a stop or a graceful shutdown marked it, and the cleanup goroutine finalizes that as UserStopped / SystemStopped; (R4 also) a failed v1 DLQ write and a v2 processor error whose nack fails are returned as fatal errors.",
 		NotDecided:  []string{"which goroutine wins the tomb at run time", "delays and windows (timing)", "v1/v2 parity of 'DLQ write failure is fatal' and 'processor error with the DLQ disabled' (reported as notes only — not demonstrated defects)"},
 		Assumptions: []string{"tomb.v2: the first Kill reason is the tomb's error", "cerrors.IsFatalError (C20.R4)"},
 	})
 	register(&Property{
-		ID:  "C11",
-		Run: runC11,
+		ID:          "C11",
+		Run:         runC11,
 		Explanation: "Decides the structural clauses of 'one live run, true result': (R1) a run is published in runningPipelines before the Running status is written, only by runPipeline; (R2) both engines remove the published entry only through compare-and-delete under the publication mutex; (R3) the terminal error is recorded before the entry is removed, Start clears the previous terminal error before running, WaitPipeline consults the live entry first and the terminal error second; (R4) v2 start-up barriers: workers wait for `registered`, the cleanup goroutine waits for `startupDone`, both channels are closed on every path; (R5) the publication mutex guards every write of the map in both engines; (R6) connectors and processors are released at the end of a run (Instance.connector cleared by Teardown, running flag reset on every failing exit of MakeRunnableProcessor); (R7) a second run is refused (running status, live tomb, non-nil Instance.connector); (R9) nodes that Stop waits on publish their stopped state by a defer registered at entry; (R10) a v1 start that fails after the nodes were started un-publishes the run, kills its tomb and joins the nodes on every exit.",
 		NotDecided:  []string{"absence of deadlock in general", "which interleavings occur"},
 		Assumptions: []string{"csync.Map is a mutex-guarded map", "tomb.v2 semantics"},
 	})
 	register(&Property{
-		ID:  "C12",
-		Run: runC12,
+		ID:          "C12",
+		Run:         runC12,
 		Explanation: "Decides the structural clauses of a clean force stop: (R1) the forceStopper protocol — cancel and stopped are accessed under its mutex, start re-checks stopped after storing cancel, stop records stopped only when no cancel exists yet; (R2) every node type with a ForceStop method delegates to stopper.stop() and obtains its connector context from stopper.start() (no other context.WithCancel(context.Background()) in those types); (R3) both engines kill the tomb with FatalError(ErrForceStop), v1 before it force-stops the nodes, and v2 opens sink and workers with the tomb's own context so the kill reaches blocked plugin calls; (R4) no Message.Ack is reachable from a context-cancellation arm or a failed Send in the stream nodes, the destination acker's teardown only nacks, and a message taken from its queue is put back at the front; (R5 = C11.R6) resources are released so the pipeline can be started again.",
 		NotDecided:  []string{"that blocked plugin calls actually return when their context is cancelled", "liveness"},
 		Assumptions: []string{"context cancellation propagates to connector plugin calls opened with that context"},
@@ -140,12 +140,9 @@ func runC10(c *Ctx) {
 }
 
 // c10R8: a stop issued while the run is parked in the recovery back-off wins
-// over the restart (F13).
+// over the restart (F13, both engines).
 func c10R8(c *Ctx) {
-	r := c.R.Rule("R8", "K3 stopped stays stopped during the back-off: v2 StartWithBackoff restarts only on the !intentionalStop and !isGracefulShutdown edges, every stop branch (graceful and force) sets the marker before it kills/stops, and the cleanup goroutine finalizes the sentinel StartWithBackoff returns for a user stop as UserStopped, never Degraded", 5)
-	rel := pLife2
-	intent := c.Field(r, rel, "runnablePipeline", "intentionalStop")
-	shut := c.Field(r, rel, "Service", "isGracefulShutdown")
+	r := c.R.Rule("R8", "K3 stopped stays stopped during the back-off (both engines): StartWithBackoff restarts only on the !intentionalStop and !isGracefulShutdown edges, every stop that kills the tomb sets the marker first, StopAll sets the shutdown marker, and the cleanup goroutine finalizes the sentinels StartWithBackoff returns as UserStopped / SystemStopped, never Degraded", 13)
 	kill := c.W.ExtMethod("gopkg.in/tomb.v2", "Tomb", "Kill")
 	isVar := c.W.LookupObj(pCerrors, "Is") // cerrors.Is = errors.Is (a package-level func variable)
 	errorsIs := c.W.ExtObj("errors", "Is")
@@ -172,82 +169,103 @@ func c10R8(c *Ctx) {
 		}
 		return out
 	}
-	var sentinels []ssa.Value
-	if fn := c.SSA(r, rel, "(*Service).StartWithBackoff"); fn != nil {
-		starts := asInstrs(kit.CallsTo(fn, Set(c.Fn(r, rel, "(*Service).Start"))))
-		for _, t := range []struct {
-			f    *types.Var
-			name string
-		}{{intent, "intentionalStop"}, {shut, "isGracefulShutdown"}} {
-			g := kit.NewGates()
-			for _, l := range atomicCalls(fn, t.f, "Load") {
-				g.AddEdges(kit.CondEdges(l.Value(), false), "!"+t.name)
-				// what is returned on the marker's true edge
-				if t.f == intent {
+	for _, rel := range []string{pLife, pLife2} {
+		eng, stopFn := "v1", "(*Service).stopForceful"
+		if rel == pLife2 {
+			eng, stopFn = "v2", "(*Service).stopRunnablePipeline"
+		}
+		intent := c.Field(r, rel, "runnablePipeline", "intentionalStop")
+		shut := c.Field(r, rel, "Service", "isGracefulShutdown")
+		type marker struct {
+			f      *types.Var
+			name   string
+			status string
+		}
+		markers := []marker{{intent, "intentionalStop", "StatusUserStopped"}, {shut, "isGracefulShutdown", "StatusSystemStopped"}}
+		sentinels := map[string][]ssa.Value{}
+		if fn := c.SSA(r, rel, "(*Service).StartWithBackoff"); fn != nil {
+			starts := asInstrs(kit.CallsTo(fn, Set(c.Fn(r, rel, "(*Service).Start"))))
+			for _, t := range markers {
+				g := kit.NewGates()
+				for _, l := range atomicCalls(fn, t.f, "Load") {
+					g.AddEdges(kit.CondEdges(l.Value(), false), "!"+t.name)
+					// what is returned on the marker's true edge
 					for _, e := range kit.CondEdges(l.Value(), true) {
 						for _, ret := range kit.Returns(fn) {
 							if ret.Block() == e.To || e.To.Dominates(ret.Block()) {
-								sentinels = append(sentinels, kit.RetVal(ret, 0))
+								sentinels[t.name] = append(sentinels[t.name], kit.RetVal(ret, 0))
 							}
 						}
 					}
 				}
-			}
-			c.Dominated(r, "v2 StartWithBackoff: no restart after "+t.name, starts, g, "the !"+t.name+".Load() edge")
-		}
-	}
-	if fn := c.SSA(r, rel, "(*Service).stopRunnablePipeline"); fn != nil && kill != nil {
-		g := kit.NewGates()
-		for _, s := range atomicCalls(fn, intent, "Store") {
-			if kit.IsBoolConst(s.Common().Args[1], true) {
-				g.AddInstr(s, "")
+				c.Dominated(r, eng+" StartWithBackoff: no restart after "+t.name, starts, g, "the !"+t.name+".Load() edge")
 			}
 		}
-		c.Dominated(r, "v2 stopRunnablePipeline: marker set before the tomb is killed by a stop", asInstrs(kit.CallsTo(fn, Set(kill))), g, "intentionalStop.Store(true)")
-	}
-	// cleanup goroutine: the sentinel is finalized as a user stop
-	run := c.SSA(r, rel, "(*Service).runPipeline")
-	if run == nil {
-		return
-	}
-	lits := litsWith(run, Set(c.Fn(r, rel, "(*Service).recoverPipeline")))
-	if len(lits) != 1 || len(sentinels) == 0 {
-		c.R.Fail(r, "v2 cleanup: user stop during the back-off", c.Pos(run.Pos()), "StartWithBackoff returns no sentinel on the intentionalStop edge, or the cleanup goroutine was not found")
-		return
-	}
-	cl := lits[0]
-	var edges []kit.Edge
-	for _, call := range isCalls(cl) {
-		a := call.Common().Args
-		for _, sv := range sentinels {
-			u, ok := sv.(*ssa.UnOp)
-			if !ok {
+		if fn := c.SSA(r, rel, stopFn); fn != nil && kill != nil {
+			g := kit.NewGates()
+			for _, s := range atomicCalls(fn, intent, "Store") {
+				if kit.IsBoolConst(s.Common().Args[1], true) {
+					g.AddInstr(s, "")
+				}
+			}
+			c.Dominated(r, eng+" "+stopFn+": marker set before the tomb is killed by a stop", asInstrs(kit.CallsTo(fn, Set(kill))), g, "intentionalStop.Store(true)")
+		}
+		if fn := c.SSA(r, rel, "(*Service).StopAll"); fn != nil {
+			n := 0
+			for _, s := range atomicCalls(fn, shut, "Store") {
+				if kit.IsBoolConst(s.Common().Args[1], true) {
+					n++
+				}
+			}
+			c.R.Check(n >= 1, r, eng+" StopAll: marks the shutdown", c.Pos(fn.Pos()), "isGracefulShutdown.Store(true)", "StopAll no longer sets the shutdown marker StartWithBackoff consults: a run parked in the back-off would be restarted in the middle of the shutdown", true)
+		}
+		// cleanup goroutine: the sentinels are finalized as the matching stopped status
+		run := c.SSA(r, rel, "(*Service).runPipeline")
+		if run == nil {
+			continue
+		}
+		lits := litsWith(run, Set(c.Fn(r, rel, "(*Service).recoverPipeline")))
+		if len(lits) != 1 {
+			c.R.Fail(r, eng+" cleanup goroutine", c.Pos(run.Pos()), "expected exactly one function literal calling recoverPipeline")
+			continue
+		}
+		cl := lits[0]
+		back := kit.NewGates().AddEdges(loopBackEdges(cl), "")
+		for _, t := range markers {
+			key := eng + " cleanup: " + t.name + " during the back-off ends " + t.status
+			var edges []kit.Edge
+			for _, call := range isCalls(cl) {
+				a := call.Common().Args
+				for _, sv := range sentinels[t.name] {
+					u, ok := sv.(*ssa.UnOp)
+					if !ok {
+						continue
+					}
+					if g, ok := u.X.(*ssa.Global); ok && len(a) == 2 && isGlobalLoad(a[1], g.Object()) {
+						edges = append(edges, kit.CondEdges(call, true)...)
+					}
+				}
+			}
+			if len(edges) == 0 {
+				c.R.Fail(r, key, c.Pos(cl.Pos()), "the cleanup goroutine does not test the recovery error against the sentinel StartWithBackoff returns on the "+t.name+" edge: it would be treated as a failed recovery (Degraded)")
 				continue
 			}
-			if g, ok := u.X.(*ssa.Global); ok && len(a) == 2 && isGlobalLoad(a[1], g.Object()) {
-				edges = append(edges, kit.CondEdges(call, true)...)
+			stopped := false
+			for _, us := range updateStatusCalls(c, r, cl, rel) {
+				for _, e := range edges {
+					if !kit.EdgeReaches(e, us, back) {
+						continue
+					}
+					if statusIs(c, statusArg(us), t.status) {
+						stopped = true
+					} else {
+						c.R.Fail(r, key, c.Pos(us.Pos()), "a status other than "+t.status+" is written on the "+t.name+"-during-back-off edge")
+					}
+				}
 			}
+			c.R.Check(stopped, r, key, c.Pos(cl.Pos()), "ok", "no "+t.status+" write on the "+t.name+"-during-back-off edge", true)
 		}
 	}
-	if len(edges) == 0 {
-		c.R.Fail(r, "v2 cleanup: user stop during the back-off", c.Pos(cl.Pos()), "the cleanup goroutine does not test the recovery error against the user-stop sentinel StartWithBackoff returns: it would be treated as a failed recovery (Degraded)")
-		return
-	}
-	back := kit.NewGates().AddEdges(loopBackEdges(cl), "")
-	stopped := false
-	for _, us := range updateStatusCalls(c, r, cl, rel) {
-		for _, e := range edges {
-			if !kit.EdgeReaches(e, us, back) {
-				continue
-			}
-			if statusIs(c, statusArg(us), "StatusUserStopped") {
-				stopped = true
-			} else {
-				c.R.Fail(r, "v2 cleanup: user stop during the back-off", c.Pos(us.Pos()), "a status other than UserStopped is written on the user-stopped-during-back-off edge")
-			}
-		}
-	}
-	c.R.Check(stopped, r, "v2 cleanup: user stop during the back-off ends UserStopped", c.Pos(cl.Pos()), "ok", "no UserStopped write on the user-stopped-during-back-off edge", true)
 }
 
 func c10R1(c *Ctx) {
@@ -639,12 +657,7 @@ func c10R5(c *Ctx) {
 		}
 		c.Dominated(r, "stopRunnablePipeline: marker set before any worker is stopped", spawns, g, "intentionalStop.Store(true)")
 		// cleared only on the nothing-armed arm
-		gNone := kit.NewGates().AddEdges(kit.CmpEdges(fn, func(b *ssa.BinOp) (bool, bool) {
-			if kit.IsLenOf(b.X, nil) && kit.IsIntConst(b.Y, 0) && b.Op == token.EQL {
-				return true, true
-			}
-			return false, false
-		}), "len(armedSources)==0")
+		gNone := kit.NewGates().AddEdges(kit.LenEdges(fn, nil, 0, 0), "len(armedSources)==0")
 		c.Dominated(r, "stopRunnablePipeline: marker cleared only when no worker was armed", setFalse, gNone, "the len(armedSources)==0 edge")
 	}
 	if fn := c.SSA(r, pLife2, "(*Service).StopAll"); fn != nil {
